@@ -130,6 +130,8 @@ def do_run(names, tier, props):
                 rc, o = sh([os.path.join(HERE, "check"), p, "--tier", tier], cwd=HERE, env=env, timeout=7200)
                 lines = [l for l in o.splitlines() if l.startswith(("VIOLATION", "  sig=", "INCONCLUSIVE")) or " tier=" in l]
                 verdict = {0: "MISSED", 1: "caught", 2: "inconclusive"}.get(rc, "rc%d" % rc)
+                if rc == 1 and not any(l.startswith("VIOLATION") for l in lines):
+                    verdict = "check crashed"
                 if silent_expected:
                     verdict = {0: "silent (ok)", 1: "FALSE ALARM", 2: "inconclusive"}.get(rc, "rc%d" % rc)
                 res.setdefault(name, {})[p] = {"verdict": verdict, "lines": [l[:300] for l in lines[:8]]}
